@@ -3,9 +3,9 @@
 // pairs by the Kani harness kani/c02_log_header.rs (complete).
 pub mod log {
     use vstd::prelude::*;
-    #[derive(Copy, Clone, PartialEq, Eq)]
+    #[derive(Copy, Clone, PartialEq, Eq, Structural)]
     pub enum Level { Error = 1, Warn, Info, Debug, Trace }
-    #[derive(Copy, Clone, PartialEq, Eq)]
+    #[derive(Copy, Clone, PartialEq, Eq, Structural)]
     pub enum LevelFilter { Off, Error, Warn, Info, Debug, Trace }
     pub open spec fn lrank(l: Level) -> int { match l { Level::Error => 1, Level::Warn => 2, Level::Info => 3, Level::Debug => 4, Level::Trace => 5 } }
     pub open spec fn frank(l: LevelFilter) -> int { match l { LevelFilter::Off => 0, LevelFilter::Error => 1, LevelFilter::Warn => 2, LevelFilter::Info => 3, LevelFilter::Debug => 4, LevelFilter::Trace => 5 } }
